@@ -1,3 +1,4 @@
+\* c3forced2
 SPECIFICATION Spec
 CONSTANTS
   Cand <- Cand3
